@@ -6,6 +6,7 @@ import (
 	"context"
 	"fmt"
 	"math/rand"
+	"strings"
 
 	"github.com/tetratelabs/wazero"
 	"github.com/tetratelabs/wazero/api"
@@ -268,7 +269,9 @@ func sharedCache() {
 			rec := &recorder{ids: idOfDef, types: recTypes()}
 			recs[k] = rec
 			ctx := experimental.WithFunctionListenerFactory(context.Background(), experimental.FunctionListenerFactoryFunc(
-				func(def api.FunctionDefinition) experimental.FunctionListener { return &lsn{id: idOfDef(def), rec: rec} }))
+				func(def api.FunctionDefinition) experimental.FunctionListener {
+					return &lsn{id: idOfDef(def), rec: rec}
+				}))
 			rt := wazero.NewRuntimeWithConfig(ctx, rtConfig(eng, false).WithCompilationCache(cache))
 			mod, err := rt.InstantiateWithConfig(ctx, bin, wazero.NewModuleConfig().WithName("A"))
 			if err != nil {
@@ -296,6 +299,103 @@ func sharedCache() {
 		rep.Violate(hx.Violation{Kind: "impl-violation", Signature: "C20:shared-cache-listener-events-wrong:" + eng,
 			What: "listeners of runtimes sharing a compilation cache see wrong events", Input: in, Expected: "each runtime's listener sees " + want, Actual: got})
 	}
+}
+
+// largeModule: scale.  A module with 300 functions compiled several times in ONE runtime (and through one
+// in-memory cache) under listener sets that differ only at high function indexes: every set must see exactly the
+// calls of its functions - whatever identifies a compiled module in a cache must distinguish them.
+func largeModule() {
+	const N = 300
+	m := wb.New()
+	p, r := []byte{wb.I32}, []byte{wb.I32}
+	callees := []uint32{255, 256, 257, 299}
+	m.AddFunc(wb.Func{Params: p, Results: r, Export: "run", Body: wb.Cat(wb.LocalGet(0), wb.Call(1))})
+	body := wb.LocalGet(0)
+	for _, c := range callees {
+		body = wb.Cat(body, wb.Call(c))
+	}
+	m.AddFunc(wb.Func{Params: p, Results: r, Body: body})
+	for i := 2; i < N; i++ {
+		m.AddFunc(wb.Func{Params: p, Results: r, Body: wb.Cat(wb.LocalGet(0), wb.I32Const(int32(i)), wb.Op(wasm.OpcodeI32Add))})
+	}
+	bin := m.Bytes()
+	chain := []string{"B0", "B1"}
+	for _, c := range callees {
+		chain = append(chain, fmt.Sprintf("B%d", c), fmt.Sprintf("A%d", c))
+	}
+	chain = append(chain, "A1", "A0")
+	type set struct {
+		name string
+		in   func(i uint32) bool
+	}
+	sets := []set{
+		{"all", func(i uint32) bool { return true }},
+		{"first256", func(i uint32) bool { return i < 256 }},
+		{"{0,256}", func(i uint32) bool { return i == 0 || i == 256 }},
+		{"{0}", func(i uint32) bool { return i == 0 }},
+		{"{1,257}", func(i uint32) bool { return i == 1 || i == 257 }},
+		{"{299}", func(i uint32) bool { return i == 299 }},
+		{"from256", func(i uint32) bool { return i >= 256 }},
+	}
+	for _, eng := range engines {
+		for _, order := range [][]int{{0, 1, 2, 3, 4, 5, 6}, {6, 5, 4, 3, 2, 1, 0}, {3, 2, 0, 1, 5, 6, 4}} {
+			rt := wazero.NewRuntimeWithConfig(context.Background(), rtConfig(eng, false))
+			for _, k := range order {
+				st := sets[k]
+				var evs []string
+				mk := func(def api.FunctionDefinition) experimental.FunctionListener {
+					if !st.in(def.Index()) {
+						return nil
+					}
+					return &idxListener{idx: def.Index(), evs: &evs}
+				}
+				ctx := experimental.WithFunctionListenerFactory(context.Background(), experimental.FunctionListenerFactoryFunc(mk))
+				cm, err := rt.CompileModule(ctx, bin)
+				if err != nil {
+					hx.Fatal("large module: %v", err)
+				}
+				mod, err := rt.InstantiateModule(ctx, cm, wazero.NewModuleConfig().WithName(""))
+				if err != nil {
+					hx.Fatal("large module: %v", err)
+				}
+				res, err := mod.ExportedFunction("run").Call(ctx, 5)
+				var want []string
+				for _, e := range chain {
+					var i uint32
+					fmt.Sscanf(e[1:], "%d", &i)
+					if st.in(i) {
+						want = append(want, e)
+					}
+				}
+				rep.Case(fmt.Sprintf("large-module/%s/%v/%s", eng, order, st.name))
+				wantRes := uint64(5 + 255 + 256 + 257 + 299)
+				if err != nil || len(res) != 1 || res[0] != wantRes || strings.Join(evs, " ") != strings.Join(want, " ") {
+					rep.Violate(hx.Violation{Kind: "impl-violation", Signature: "C20:large-module-listener-set-sees-wrong-calls:" + eng,
+						What: fmt.Sprintf("%s: a 300-function module compiled in one runtime under the listener sets %v (in this order): the set %s saw [%s], its functions were called as [%s]; run(5) = %v, %v",
+							eng, order, st.name, strings.Join(evs, " "), strings.Join(want, " "), res, err),
+						Input:    caseInput{Scenario: "large-module", Engine: eng, Listener: st.name, Note: fmt.Sprintf("compile order of the sets %v; run -> f1 -> f255, f256, f257, f299", order)},
+						Expected: strings.Join(want, " "), Actual: strings.Join(evs, " ")})
+				}
+				mod.Close(ctx)
+			}
+			rt.Close(context.Background())
+		}
+	}
+}
+
+type idxListener struct {
+	idx uint32
+	evs *[]string
+}
+
+func (l *idxListener) Before(context.Context, api.Module, api.FunctionDefinition, []uint64, experimental.StackIterator) {
+	*l.evs = append(*l.evs, fmt.Sprintf("B%d", l.idx))
+}
+func (l *idxListener) After(context.Context, api.Module, api.FunctionDefinition, []uint64) {
+	*l.evs = append(*l.evs, fmt.Sprintf("A%d", l.idx))
+}
+func (l *idxListener) Abort(context.Context, api.Module, api.FunctionDefinition, error) {
+	*l.evs = append(*l.evs, fmt.Sprintf("X%d", l.idx))
 }
 
 func cacheModule() []byte {
